@@ -38,6 +38,8 @@ type C03Decl struct {
 	Shorthand bool   `json:"shorthand,omitempty"`
 	// OwnValue > 0: the rule carrying a nested rule also declares the property itself, before the nested rule
 	OwnValue int `json:"own_value,omitempty"`
+	// carriers own-then-nested / nested-then-own: the other declarations of the rule, on the far side of its nested rule
+	Extra string `json:"extra,omitempty"`
 }
 
 type C03Case struct {
@@ -124,9 +126,12 @@ func c03Gen(t *rapid.T, tier Tier) interface{} {
 		}
 		switch d.Origin {
 		case "author":
-			d.Carrier = rapid.SampledFrom([]string{"style", "style", "style", "link", "import", "media", "media-off", "nested-amp", "nested-desc", "attr", "attr", "hint"}).Draw(t, "carrier")
+			d.Carrier = rapid.SampledFrom([]string{"style", "style", "style", "link", "import", "media", "media-off", "nested-amp", "nested-desc", "own-then-nested", "nested-then-own", "attr", "attr", "hint"}).Draw(t, "carrier")
 		default:
-			d.Carrier = rapid.SampledFrom([]string{"style", "style", "media", "media-off", "import"}).Draw(t, "carrier2")
+			d.Carrier = rapid.SampledFrom([]string{"style", "style", "media", "media-off", "import", "own-then-nested", "nested-then-own"}).Draw(t, "carrier2")
+		}
+		if d.Carrier == "own-then-nested" || d.Carrier == "nested-then-own" {
+			d.Extra = rapid.SampledFrom([]string{"", "letter-spacing:1px", "word-spacing:2px;letter-spacing:1px", "letter-spacing:1px !important"}).Draw(t, "extra")
 		}
 		if d.Origin == "ua" && d.Carrier == "import" {
 			// the generated UA rules share one sheet, where an @import is only valid before every other rule
@@ -219,6 +224,17 @@ func c03Rule(prop string, d C03Decl) (text string, spec [3]int, ownSpec [3]int) 
 		s := d.Sel.Spec
 		s[2]++ // :is(div) + nested selector
 		return "div{" + own + d.Sel.Text + "{" + decl + "}}", s, [3]int{0, 0, 1}
+	}
+	switch d.Carrier {
+	case "own-then-nested":
+		// the declaration, a nested rule for some other element, then other declarations of the same rule
+		return d.Sel.Text + "{" + decl + ";em{z-index:9}" + d.Extra + "}", d.Sel.Spec, d.Sel.Spec
+	case "nested-then-own":
+		extra := d.Extra
+		if extra != "" {
+			extra += ";"
+		}
+		return d.Sel.Text + "{" + extra + "em{z-index:9}" + decl + "}", d.Sel.Spec, d.Sel.Spec
 	}
 	return d.Sel.Text + "{" + decl + "}", d.Sel.Spec, d.Sel.Spec
 }
